@@ -22,7 +22,7 @@ from ..model import AnalysisError
 from ..x_syncnorm import normalized
 
 NORM_MODULES = ("tornado/locks.py", "tornado/queues.py", "tornado/gen.py", "tornado/concurrent.py", "tornado/ioloop.py", "tornado/platform/asyncio.py")
-from ..x_sync import check_outcome_reads, check_none_tests, own_walk, guard_models, aug_delta, node_counts, method_call_on, container_uses, exit_states, reaches, lambda_or_func_body_calls, own_find, own_settle_sites
+from ..x_sync import with_nullness, check_outcome_reads, check_none_tests, own_walk, guard_models, aug_delta, node_counts, method_call_on, container_uses, exit_states, reaches, lambda_or_func_body_calls, own_find, own_settle_sites
 
 TECHNIQUE = "typestate over the CFG (permit accounting), exhaustive guard folding, settle-discipline and who-may-touch lint"
 EXPLANATION = (
@@ -198,7 +198,9 @@ def check_release(ck, fi):
                 pending = False  # legitimately skipped: timed out / cancelled
         return (d, g, pending, dropped)
 
-    normal, _ = exit_states(cfg, (0, 0, False, False), transfer, track=lambda t: t == WAIT, edge_transfer=edge)
+    z_, tr_, ed_ = with_nullness((0, 0, False, False), transfer, edge)
+    normal, _ = exit_states(cfg, z_, tr_, track=lambda t: t == WAIT, edge_transfer=ed_)
+    normal = sorted({(f_, v_[0]) for f_, v_ in normal}, key=repr)
     ck.floor("C33.release-ts", len(normal), 2, "normal exit states of release")
     for facts, (d, g, pending, dropped) in normal:
         empty = (WAIT, False) in facts
